@@ -4,6 +4,7 @@ import hashlib
 from .. import env, hyp, optable as O, ed25519_ref as E
 from .c02 import push, msg_of
 from hypothesis import strategies as st
+from ..gen import dict_order as gen_dict_order
 
 F, T = env.F, env.T
 C = O.CODES
@@ -343,6 +344,7 @@ def op_case(draw):
 @st.composite
 def builder_case(draw):
     fields = {'sigfield%d' % i: draw(st.binary(min_size=1, max_size=12)) for i in range(1, 9) if draw(st.integers(0, 2)) == 0}
+    fields = gen_dict_order(draw, fields)
     if not fields:
         fields = {'sigfield1': b'm'}
     return {'check': 'builders', 'seed': draw(st.binary(min_size=32, max_size=32)), 'fields': fields,
